@@ -365,7 +365,9 @@ func Harness_Act(n int, layout int, street int, limit int, cur int, op int) {
 	// (Bet always records the requested amount as the minimum, also above the stack and in pre-states
 	// where a minimum is already in force with no wager standing; the statement speaks of bets below
 	// the stack only, so a bet is held to exactly that)
-	if op == 3 || (op == 5 && vFork(x != pre.cw)) { // a raise to the standing wager is carried out as a call
+	if st.CurrentEvent != "RoundStarted" {
+		// the round is over: the minimum raise is of no consequence any more (it is reset for the next street)
+	} else if op == 3 || (op == 5 && vFork(x != pre.cw)) { // a raise to the standing wager is carried out as a call
 		vAssert(vAnd(vImplies(grown, st.PreviousRaiseSize == inc), vImplies(!grown, st.PreviousRaiseSize == pre.prs)), "C12.minimum-raise-changes-only-by-a-bet-or-raise-of-at-least-its-size")
 	} else if op != 4 {
 		// fold, check, call (also the call that completes a short big blind), pass: never
